@@ -1,5 +1,6 @@
 """C04 -- linear, parity and mapping constraint builders mean what their names say."""
 import ast
+import re
 
 from ..loader import AnalysisError, walk_shallow
 from ..cfg import CFG
@@ -42,6 +43,7 @@ def run(prog, tier):
     check_iterable(R, prog)
     check_discarded_exceptions(R, prog)
     check_mapping_dispatch(R, prog)
+    check_mapping_schema(R, prog)
     check_forbid_bits(R, prog)
     return R
 
@@ -248,6 +250,37 @@ def check_add_linear(R, prog):
             R.ok("OP-REDUCTION", "add_linear '>=' base case: " + msgs[k], fi.key)
         else:
             R.bad(F("OP-REDUCTION", fi, "add_linear '>=' base: " + k, "expected: " + msgs[k]))
+    # closed world: every exit and every emission of add_linear belongs to a row established above
+    explained = set()
+    for lit, (node, body) in branches.items():
+        for st in body:
+            for x in ast.walk(st):
+                explained.add(id(x))
+    for st in fi.node.body:
+        if isinstance(st, ast.If) and isinstance(st.test, ast.Compare) and len(st.test.ops) == 1:
+            l, o, r = cmp_ops(st.test)[0]
+            if (src(l) == pc and isinstance(o, ast.LtE) and is_const(r, 0)) or \
+                    (src(l) == pc and isinstance(o, ast.Gt) and src(r) == "len(%s)" % pl) or \
+                    (src(l) == pop and isinstance(o, ast.NotIn)):
+                for x in ast.walk(st):
+                    explained.add(id(x))
+        if isinstance(st, ast.For) and isinstance(st.iter, ast.Call) and call_name(st.iter) == "combinations":
+            for x in ast.walk(st):
+                explained.add(id(x))
+    stray = []
+    for st in stmts_in(fi.node):
+        if isinstance(st, (ast.Return, ast.Raise)) and id(st) not in explained:
+            stray.append(st)
+        if isinstance(st, ast.Expr) and isinstance(st.value, ast.Call) and call_name(st.value) in ("self.add_clause", "self.add_linear") \
+                and id(st) not in explained:
+            stray.append(st)
+    if stray:
+        for st in stray:
+            R.bad(F("OP-REDUCTION", fi, "add_linear unexplained %s" % ("exit" if isinstance(st, (ast.Return, ast.Raise)) else "emission"),
+                    "`%s` at line %d is outside the reduction rows (==, <, >, <=, !=), the '>=' base case and the operator gate: for some "
+                    "(operator, constant) the function leaves or emits without going through a sound rewrite" % (src(st)[:60], st.lineno), st))
+    else:
+        R.ok("OP-REDUCTION", "add_linear: every exit and emission belongs to a verified row (closed world)", fi.key)
     # the operator gate rejects anything else
     gate = False
     for s in fi.node.body:
@@ -289,47 +322,78 @@ def check_normalize(R, prog):
     if set(roles) != {"value", "op", "terms"}:
         raise AnalysisError("normalize_opb: cannot identify value / operator / terms of the constraint")
     vname, oname, tname = roles["value"], roles["op"], roles["terms"]
-    # walk the top-level if-chains in order, interpreting over the finite operator domain
-    domain = {"<", ">", "<=", ">=", "=="}
-    state = {o: (o, "v", False) for o in domain}     # input op -> (current op, value form, negated coefficients)
-    forms = {"v": lambda v: v, "v-1": lambda v: v - 1, "v+1": lambda v: v + 1, "-v": lambda v: -v,
-             "-(v-1)": lambda v: -(v - 1), "-(v+1)": lambda v: -(v + 1)}
+    # Abstract interpretation over the finite operator domain.  State per input operator:
+    #   (current operator, value as a polynomial in v / W=sum(c) / A=sum|c|, sign applied to all coefficients, literals complemented?)
+    # meaning   sign * sum(c_i * x_i)  OP  value   with x_i = l_i, or 1 - l_i when complemented.
+    from ..ql import Poly, to_poly
+    domain = ["<", ">", "<=", ">=", "=="]
+    V, W, A = Poly.sym("v"), Poly.sym("W"), Poly.sym("A")
+    state = {o: {"op": o, "val": V, "sign": 1, "comp": False, "env": {}} for o in domain}
 
-    def apply_branch(body, cur):
-        op, form, neg = cur
-        f = forms[form]
-        for s in body:
-            if isinstance(s, ast.Assign) and len(s.targets) == 1 and isinstance(s.targets[0], ast.Name):
-                t = s.targets[0].id
+    def termsum(e, st):
+        """sum(c for c, l in terms) -> sign*W ; sum(abs(c) ...) -> A ; else None"""
+        if isinstance(e, ast.Call) and call_name(e) == "sum" and len(e.args) == 1 and isinstance(e.args[0], (ast.GeneratorExp, ast.ListComp)):
+            g = e.args[0]
+            if len(g.generators) == 1 and src(g.generators[0].iter) == tname and isinstance(g.generators[0].target, ast.Tuple):
+                cn = src(g.generators[0].target.elts[0])
+                if src(g.elt) == cn:
+                    return W * st["sign"]
+                if src(g.elt) == "abs(%s)" % cn:
+                    return A
+        return None
+
+    def value_of(e, st):
+        ts = termsum(e, st)
+        if ts is not None:
+            return ts
+        if isinstance(e, ast.BinOp) and isinstance(e.op, (ast.Add, ast.Sub)):
+            a, b = value_of(e.left, st), value_of(e.right, st)
+            return a + b if isinstance(e.op, ast.Add) else a - b
+        if isinstance(e, ast.UnaryOp) and isinstance(e.op, ast.USub):
+            return -value_of(e.operand, st)
+        if isinstance(e, ast.Name):
+            if e.id == vname:
+                return st["val"]
+            if e.id in st["env"]:
+                return st["env"][e.id]
+        if isinstance(e, ast.Constant) and isinstance(e.value, int) and not isinstance(e.value, bool):
+            return Poly.const(e.value)
+        raise AnalysisError("normalize_opb: value expression %s not understood" % src(e))
+
+    def apply_branch(body, st):
+        st = dict(st, env=dict(st["env"]))
+        for x in body:
+            if isinstance(x, ast.Assign) and len(x.targets) == 1 and isinstance(x.targets[0], ast.Name):
+                t = x.targets[0].id
                 if t == oname:
-                    c = const(s.value)
+                    c = const(x.value)
                     if not isinstance(c, str):
                         raise AnalysisError("normalize_opb: operator assigned a non-literal")
-                    op = c
+                    st["op"] = c
                 elif t == vname:
-                    # value expressed through the current value
-                    g = s.value
-                    trial = {}
-                    for x in (-2, 0, 3):
-                        trial[x] = ev(g, {vname: f(x)})
-                    found = None
-                    for name, h in forms.items():
-                        if all(h(x) == trial[x] for x in trial):
-                            found = name
-                    if found is None:
-                        raise AnalysisError("normalize_opb: unrecognised value rewrite %s" % src(g))
-                    form, f = found, forms[found]
+                    st["val"] = value_of(x.value, st)
                 elif t == tname:
-                    v = s.value
+                    v = x.value
+                    ok = False
                     if isinstance(v, ast.ListComp) and isinstance(v.elt, ast.Tuple) and len(v.elt.elts) == 2 and \
-                            isinstance(v.elt.elts[0], ast.UnaryOp) and isinstance(v.elt.elts[0].op, ast.USub):
-                        tg = v.generators[0].target
-                        if isinstance(tg, ast.Tuple) and src(v.elt.elts[0].operand) == src(tg.elts[0]) and \
-                                src(v.elt.elts[1]) == src(tg.elts[1]) and src(v.generators[0].iter) == tname:
-                            neg = not neg
-                            continue
-                    raise AnalysisError("normalize_opb: unrecognised rewrite of the terms: %s" % src(v))
-        return (op, form, neg)
+                            len(v.generators) == 1 and src(v.generators[0].iter) == tname and isinstance(v.generators[0].target, ast.Tuple):
+                        cn, ln = [src(z) for z in v.generators[0].target.elts]
+                        ce, le = [src(z) for z in v.elt.elts]
+                        if ce in (cn, "-" + cn) and le in (ln, "-" + ln):
+                            if ce == "-" + cn:
+                                st["sign"] = -st["sign"]
+                            if le == "-" + ln:
+                                st["comp"] = not st["comp"]
+                            ok = True
+                    if not ok:
+                        raise AnalysisError("normalize_opb: unrecognised rewrite of the terms: %s" % src(v))
+                else:
+                    st["env"][t] = value_of(x.value, st)
+            elif isinstance(x, ast.Expr) and isinstance(x.value, ast.Constant):
+                continue
+            else:
+                raise AnalysisError("normalize_opb: unrecognised statement in an operator branch: %s" % src(x)[:60])
+        return st
 
     def interp(stmts):
         for s in stmts:
@@ -345,37 +409,54 @@ def check_normalize(R, prog):
                 tests = []
                 for c in chain:
                     t = c.test
-                    if isinstance(t, ast.Compare) and len(t.ops) == 1 and isinstance(t.ops[0], ast.Eq) and \
-                            src(t.left) == oname and isinstance(const(t.comparators[0]), str):
-                        tests.append((const(t.comparators[0]), c.body))
-                    else:
+                    lits = None
+                    if isinstance(t, ast.Compare) and len(t.ops) == 1 and src(t.left) == oname:
+                        if isinstance(t.ops[0], ast.Eq) and isinstance(const(t.comparators[0]), str):
+                            lits = [const(t.comparators[0])]
+                        elif isinstance(t.ops[0], ast.In) and isinstance(t.comparators[0], (ast.List, ast.Tuple, ast.Set)):
+                            lits = [const(e) for e in t.comparators[0].elts]
+                    if lits is None:
                         tests = None
                         break
+                    tests.append((lits, c.body))
                 if tests is None:
                     continue
-                for o_in in list(state):
-                    cur_op = state[o_in][0]
-                    for lit, body in tests:
-                        if cur_op == lit:
+                for o_in in domain:
+                    cur_op = state[o_in]["op"]
+                    for lits, body in tests:
+                        if cur_op in lits:
                             state[o_in] = apply_branch(body, state[o_in])
                             break
-    try:
-        interp(fnode.body)
-    except Unknown as e:
-        raise AnalysisError("normalize_opb: %s" % e)
-    # sound rewrites:  sum c_i l_i  OP  v   with  all coefficients possibly negated
-    sound = {"<": (">=", "-(v-1)", True), ">": (">=", "v+1", False), "<=": (">=", "-v", True),
-             ">=": (">=", "v", False), "==": ("==", "v", False)}
-    for o_in in sorted(domain):
-        got = state[o_in]
-        if got == sound[o_in]:
-            R.ok("OP-REDUCTION", "normalize_opb %r -> %r, value %s%s" % (o_in, got[0], got[1], ", coefficients negated" if got[2] else ""), fi.key)
+    interp(fnode.body)
+
+    def canonical(op, val, sign, comp):
+        """(direction, rhs) of the equivalent statement about S = sum(c_i * l_i), strictness folded for integers"""
+        # sign*X OP val with X = S or W - S
+        rhs, d = val, op
+        flip = {"<": ">", ">": "<", "<=": ">=", ">=": "<=", "==": "=="}
+        if sign == -1:
+            rhs, d = -rhs, flip[d]             #  X OP' -val
+        if comp:
+            rhs, d = W - rhs, flip[d]          #  W - S OP' r  ->  S OP'' W - r
+        if d == "<":
+            rhs, d = rhs - 1, "<="
+        elif d == ">":
+            rhs, d = rhs + 1, ">="
+        return d, rhs
+    for o_in in domain:
+        st = state[o_in]
+        want = canonical(o_in, V, 1, False)
+        got = canonical(st["op"], st["val"], st["sign"], st["comp"])
+        if got == want:
+            R.ok("OP-REDUCTION", "normalize_opb %r -> %r, value %s%s%s: same constraint on sum(c*l)" % (
+                o_in, st["op"], st["val"], ", coefficients negated" if st["sign"] < 0 else "", ", literals complemented" if st["comp"] else ""), fi.key)
         else:
             R.bad(F("OP-REDUCTION", fi, "normalize_opb rewrite of %r" % o_in,
-                    "`sum %s v` must become `%ssum %s %s`; the code yields operator %r, value %s, coefficients %s"
-                    % (o_in, "-" if sound[o_in][2] else "", sound[o_in][0], sound[o_in][1], got[0], got[1],
-                       "negated" if got[2] else "unchanged")))
-    outs = {state[o][0] for o in domain}
+                    "input `sum(c*l) %s v` means `sum(c*l) %s %s`, but the rewritten constraint (operator %r, value %s%s%s) means "
+                    "`sum(c*l) %s %s` (W = sum of coefficients, A = sum of their absolute values)"
+                    % (o_in, want[0], want[1], st["op"], st["val"], ", coefficients negated" if st["sign"] < 0 else "",
+                       ", literals complemented" if st["comp"] else "", got[0], got[1])))
+    outs = {state[o]["op"] for o in domain}
     if outs <= {">=", "=="}:
         R.ok("OP-REDUCTION", "normalize_opb can only leave operators {>=, ==}", fi.key)
     else:
@@ -737,6 +818,72 @@ def check_mapping_dispatch(R, prog):
             R.ok("MAPPING-DISPATCH", "VariablesManager.%s refuses a mapping of another formula" % name, fi.key)
         else:
             R.bad(F("MAPPING-DISPATCH", fi, "%s foreign mapping" % name, "a mapping created by another formula must be refused with ValueError"))
+
+
+# ------------------------------------------------------------------ mapping schemas
+MAPPING_SPEC = {
+    # what each requirement means, for a unary / sparse mapping f (f(x, y) <=> "x is mapped to y") and a binary one
+    "force_complete_mapping": [
+        "for q0 in f.domain() if isinstance(f, UnaryMappingVariables): add_clause(f(q0, None))",
+        "for q0 in f.domain() for q1 in range(len(f.range()), 2 ** f.bits()) if isinstance(f, BinaryMappingVariables): add_clause(f.forbid(q0, q1))",
+    ],
+    "force_functional_mapping": [
+        "for q0 in f.domain() if isinstance(f, UnaryMappingVariables): cardinality_leq(f(q0, None), 1)",
+    ],
+    "force_surjective_mapping": [
+        "for q0 in f.range(): add_clause(f(None, q0))",
+    ],
+    "force_injective_mapping": [
+        "for q0 in f.range() if isinstance(f, UnaryMappingVariables): cardinality_leq(f(None, q0), 1)",
+        "for q0 in f.range() for (q1, q2) in combinations(f.domain(), 2) if isinstance(f, BinaryMappingVariables): add_clause(f.forbid(q1, q0) + f.forbid(q2, q0))",
+    ],
+    "force_nondecreasing_mapping": [
+        "for (q0, q1) in combinations(f.domain(), 2) for q2 in f.range(q0) for q3 in f.range(q1) if isinstance(f, UnaryMappingVariables) and q2 > q3: "
+        "add_clause([-f.to_dict()[q0, q2], -f.to_dict()[q1, q3]])",
+        "for (q0, q1) in combinations(f.domain(), 2) for (q2, q3) in combinations(f.range(), 2) if isinstance(f, BinaryMappingVariables): "
+        "add_clause(f.forbid(q0, q3) + f.forbid(q1, q2))",
+    ],
+}
+
+
+def check_mapping_schema(R, prog):
+    """the constraint schema each force_*_mapping emits (quantifier domains, index pattern, relation, bound) equals the
+    meaning of the requirement:  complete: every x has some y;  functional: every x has at most one y;  surjective: every y has
+    some x;  injective: every y has at most one x;  non-decreasing: no x1<x2 with f(x1)>f(x2)"""
+    from ..schema import extract, spec
+    ci = prog.cls(VARS, "VariablesManager")
+    for name, lines in sorted(MAPPING_SPEC.items()):
+        fi = ci.methods.get(name)
+        if fi is None:
+            raise AnalysisError("VariablesManager.%s not found" % name)
+        ems = extract(fi, formula_names=["F"], group_names={fi.params[1]: "f"})
+
+        def classkey(key):
+            """isinstance guards -> the set of mapping classes the emission applies to (the two classes are disjoint)"""
+            quants, guards, builder, args = key
+            classes = {"UnaryMappingVariables", "BinaryMappingVariables"}
+            rest = []
+            for g in guards:
+                m = re.match(r"^(not )?\(?isinstance\(f, (\w+)\)\)?$", g)
+                if m:
+                    classes = (classes - {m.group(2)}) if m.group(1) else (classes & {m.group(2)})
+                else:
+                    rest.append(g)
+            return (quants, tuple(sorted(rest)), builder, args, tuple(sorted(classes)))
+        got = {classkey(e.key()): e for e in ems}
+        want = {classkey(spec(l)): l for l in lines}
+        for k, l in want.items():
+            if k in got:
+                R.ok("MAPPING-SCHEMA", "%s: %s" % (name, l[:110]), fi.key)
+            else:
+                near = [e.text() for e in ems if e.builder == k[2]]
+                R.bad(F("MAPPING-SCHEMA", fi, "%s emits: %s" % (name, l[:90]),
+                        "the requirement means `%s`; the method does not emit this schema (it emits: %s)"
+                        % (l, " | ".join(near)[:300] or "nothing comparable")))
+        for k, e in got.items():
+            if k not in want:
+                R.bad(F("MAPPING-SCHEMA", fi, "%s extra: %s" % (name, e.text()[:90]),
+                        "the method emits a constraint schema that is not part of the requirement's meaning: %s" % e.text()[:200], e.node))
 
 
 # ------------------------------------------------------------------ forbid bits
